@@ -349,10 +349,12 @@ func c15Run(cs *c15Case) c15Res {
 			verifh.IntList(cs.bufs), fmt.Sprint(cs.tail)}, " ")
 	}
 	common := func(pre, tbl string) string { return disable + " " + filter + " " + rest(pre, tbl) }
-	res.line = "c15read " + common(preF.String(), tblF.String())
+	// "C": the model runs its own (concrete) HTML prescan on the sniffed bytes; the harness' expectation
+	// (preF) only chooses which x/text transcodings are sent along as oracle strings
+	res.line = "c15read " + common("C", tblF.String())
 	if cs.st.kind == "prog" {
 		// the MODEL computes the configuration from the program (Req.Decode.runFam)
-		res.line = "c15readp " + c15ProgString(cs.st.prog, cs.ct) + " " + fmt.Sprint(cs.st.use) + " " + rest(preF.String(), tblF.String())
+		res.line = "c15readp " + c15ProgString(cs.st.prog, cs.ct) + " " + fmt.Sprint(cs.st.use) + " " + rest("C", tblF.String())
 	}
 	dirty := cs.dirty
 	if len(dirty) == 0 {
@@ -667,6 +669,8 @@ func c15GenMalformed(r *rand.Rand, count func(string)) *c15Case {
 		c.tag = "malformed/soup"
 		count("malformed:soup")
 	}
+	// entity unescaping of attribute values (x/net/html) is outside the model: no '&'
+	body = strings.ReplaceAll(body, "&", "+")
 	c.body = body
 	fake := c15Body{body: body}
 	for i := 1; i < len(body); i++ {
